@@ -12,8 +12,11 @@
      position_after c c1 q  position of qubit q's wire once the prefix c1 of c has been processed
    Semantics (Common/Herbrand.v): Move a b = "b receives a's wire term, a becomes |0>"
    (reset-and-swap); markers are identities; gate instance tags ignore markers and moves. *)
-From CKT Require Import Common.Base Common.Circ Common.Herbrand Model.Observables Model.CutWires
-  Proofs.CutWiresP.
+From Coq Require Import QArith.
+From CKT Require Import Common.Base Common.Circ Common.Herbrand Model.Observables Model.CutWires Model.CutWiresObs
+  Model.Experiments Model.Roundtrip Proofs.ExperimentsP Proofs.CutWiresP Proofs.CutWiresObsP Proofs.CutWiresRoundtripP.
+From CKT Require Model.Reconstruct.
+Close Scope Q_scope.
 
 (* ---- qubits ---- *)
 
@@ -123,6 +126,80 @@ Theorem c03_expand_letters : forall nq c p, wf_circ nq c = true -> length (plets
   (forall j, (forall q, q < nq -> j <> final_position c q) -> nth j (plets r) 0 = 0).
 Proof. exact expand1_letters. Qed.
 
+(* ---- "the same expectation value for every observable expanded onto it", made precise ---- *)
+
+(* what an expanded observable reads on the result (its non-identity letters with the wire terms under them, in
+   order) is exactly what the original observable reads on the input with markers ignored *)
+Theorem c03_observable_reading : forall nq nc c p, wf_circ nq c = true -> length (plets p) = nq ->
+  let r := expand1 (map (final_position c) (seq 0 nq)) (nq + count_markers c) p in
+  reading (denote (nq + count_markers c) nc (cut_wires_moves nq c)) (plets r)
+  = reading (denote nq nc (erase_markers c)) (plets p).
+Proof. exact reading_expand. Qed.
+
+(* hence EVERY functional of (reading, classical bits, phase) - modelling assumption M1 says the expectation value
+   is one - takes the same value, for the whole list that expand_observables returns (c03_expand) *)
+Theorem c03_expectation_values :
+  forall (A : Type) (ev : list (letter * wt) -> list ct -> nat -> A) nq nc c ps,
+  wf_circ nq c = true -> (forall p, In p ps -> length (plets p) = nq) ->
+  map (expect ev (denote (nq + count_markers c) nc (cut_wires_moves nq c))) (expanded nq c ps)
+  = map (expect ev (denote nq nc (erase_markers c))) ps.
+Proof. exact (@expect_expanded). Qed.
+
+(* ---- clause f: cutting the inserted Moves and reconstructing with exact weights ---- *)
+
+(* FULL STATEMENT (property text, NOT proved as such):
+     reconstruct (run_exactly (generate (partition_problem (cut_wires c) (expand obs)) inf)) = <obs> on c without markers.
+   PROVED (hence _partial): the composition.  C01's round trip (c01_roundtrip_partial = Proofs/RoundtripP.roundtrip)
+   is instantiated with
+     Ev k := the value of the k-th EXPANDED observable on cut_wires' output with every Move executed as a Move
+             (for ANY value functional ev of reading/classical bits/phase: M1),
+     C    := one copy of the Move coefficient list (c03_facts: the table in decompositions.py; c02_source_tables /
+             c02_move_exact: an exact decomposition of Move) per marker; kappa <> 0 is discharged here,
+   and its conclusion is transported along c03_expectation_values.  The conclusion speaks of the ORIGINAL
+   observables on the ORIGINAL circuit.  STILL ASSUMED: exactly the remaining hypotheses of c01_roundtrip_partial -
+   P1 (multilinearity over the Move decompositions) and P2+P3 (factorisation over partitions, instrument rule) for
+   the circuit cut_wires produced, the exact weights (C04), the coefficient list shape (C05), the shape/keys of the
+   results and the exact-results equation (C06/C13).  The same transport (c03_reconstructed_transport) applies to
+   every other c01_*roundtrip*_partial, whose conclusions all have the form  res_Qeq _ (Ok (map Ev (seq 0 nobs))). *)
+Theorem c03_reconstructed_transport :
+  forall (ev : list (letter * wt) -> list ct -> nat -> Q) nq nc c ps (R : res (list Q)),
+  wf_circ nq c = true -> (forall p, In p ps -> length (plets p) = nq) ->
+  Reconstruct.res_Qeq R
+    (Ok (map (fun k => expect ev (denote (nq + count_markers c) nc (cut_wires_moves nq c)) (nth k (expanded nq c ps) pI0))
+             (seq 0 (length ps)))) ->
+  Reconstruct.res_Qeq R (Ok (map (expect ev (denote nq nc (erase_markers c))) ps)).
+Proof. exact reconstructed_transport. Qed.
+
+Theorem c03_cut_and_reconstruct_partial :
+  forall (ev : list (letter * wt) -> list ct -> nat -> Q) nq nc c ps,
+  wf_circ nq c = true -> (forall p, In p ps -> length (plets p) = nq) ->
+  let nobs := length ps in
+  let C := move_cuts c in
+  let Ev := fun k => expect ev (denote (nq + count_markers c) nc (cut_wires_moves nq c)) (nth k (expanded nq c ps) pI0) in
+  forall (L : list (list nat)) (term : jkey -> nat -> Q) (E : nat -> jkey -> nat -> Q),
+  (forall k, k < nobs ->
+     (Ev k == sumQ (map (fun ids => (coeff_prod C ids * term ids k)%Q) (all_maps (map (@length Q) C))))%Q) ->
+  (forall ids k, In ids (all_maps (map (@length Q) C)) -> k < nobs -> (term ids k == part_prod L E ids k)%Q) ->
+  forall (W : sdict) (cq : list (Q * wkind)),
+  exact_weights C W ->
+  Forall2 (fun s c0 => exists cs, chosen_coeffs C (s_ids s) = Ok cs /\
+                                  c0 = (coeff_value (total_weight W) (kappa_all C) (s_w s) cs, s_t s))
+          (sort_samples W) cq ->
+  forall pyint0 den (pds : list (Reconstruct.part * Reconstruct.pdata)),
+  length pds = length L ->
+  (forall pd, In pd pds ->
+     Reconstruct.data_len (snd pd) = length (map fst cq) * length (Reconstruct.pgroups (fst pd))) ->
+  (forall pd, In pd pds -> length (Reconstruct.plookup (fst pd)) = nobs /\ Reconstruct.locs_ok (fst pd)) ->
+  (forall pd key, In pd pds -> In key (Reconstruct.keys_of (snd pd)) ->
+     Reconstruct.outcome_to_int pyint0 key = Some (den key)) ->
+  (forall li pd sfx z s k,
+     nth_error pds li = Some pd -> nth_error L li = Some sfx ->
+     nth_error (sort_samples W) z = Some s -> k < nobs ->
+     (Reconstruct.E den pd z k == E li (project_ids sfx (s_ids s)) k)%Q) ->
+  Reconstruct.res_Qeq (Reconstruct.reconstruct_parts pyint0 nobs (map fst cq) pds)
+                      (Ok (map (expect ev (denote nq nc (erase_markers c))) ps)).
+Proof. exact cut_and_reconstruct. Qed.
+
 (* ---- non-vacuity ---- *)
 
 (* F1 witness: h 0; cut 0; cx 0 1; cut 1; h 1; cut 0; x 0   (gate ids: 0 = h, 1 = cx, 2 = x) *)
@@ -177,7 +254,58 @@ Example c03_ex2 :
   nth 2 (hc (denote 3 3 ex2)) None <> None.
 Proof. vm_compute. repeat split; discriminate. Qed.
 
+(* computed instance for clause f: one qubit prepared by a gate in the state with Bloch vector (2/7, 3/7, 6/7),
+   one marker, observables Z, X, Y.  The value functional reads the letter under the gate's wire term.  The two
+   partitions are the two ends of the cut Move; map i of the Move basis measures on the source side
+   (1, 1, X, X, Y, Y, Z, Z  with the QPD sign) and prepares on the destination side (|0>,|1>,|+>,|->,|+i>,|-i>,|0>,|1>).
+   With the Move coefficient list the physics hypotheses P1 and P2+P3 of c03_cut_and_reconstruct_partial hold
+   (P2+P3 by taking term := the product), and the values on the cut circuit are those on the original one. *)
+Module ExF.
+  Definition c : circ := [mkI (Gate 7) [0] []; mkI CutWire [0] []].
+  Definition ps : list pauli := [mkP 0 [3]; mkP 0 [1]; mkP 0 [2]].
+  Definition bloch (l : letter) : Q := match l with 1 => 2 # 7 | 2 => 3 # 7 | 3 => 6 # 7 | _ => 1 end.
+  Definition ev (r : list (letter * wt)) (_ : list ct) (_ : nat) : Q :=
+    match r with [(l, App 0 7 0 [Zero])] => bloch l | _ => 0 end.
+  Definition L : list (list nat) := [[0]; [0]].
+  Definition src (i : nat) : Q := bloch (nth i [0; 0; 1; 1; 2; 2; 3; 3] 0).
+  Definition prep (i : nat) (l : letter) : Q :=      (* <letter> of the state prepared by map i *)
+    match nth i [(3, 1%Z); (3, (-1)%Z); (1, 1%Z); (1, (-1)%Z); (2, 1%Z); (2, (-1)%Z); (3, 1%Z); (3, (-1)%Z)] (0, 0%Z) with
+    | (a, sg) => if Nat.eqb a l then inject_Z sg else 0
+    end.
+  Definition E (li : nat) (pids : jkey) (k : nat) : Q :=
+    match li, pids with
+    | 0, [i] => src i
+    | 1, [i] => prep i (nth 0 (plets (nth k ps pI0)) 0)
+    | _, _ => 0
+    end.
+  Definition Ev (k : nat) : Q := expect ev (denote 2 0 (cut_wires_moves 1 c)) (nth k (expanded 1 c ps) pI0).
+End ExF.
+
+Example c03_ex_clause_f :
+  wf_circ 1 ExF.c = true /\ move_cuts ExF.c = [move_cq] /\
+  expanded 1 ExF.c ExF.ps = [mkP 0 [0; 3]; mkP 0 [0; 1]; mkP 0 [0; 2]] /\
+  map ExF.Ev [0; 1; 2] = [6 # 7; 2 # 7; 3 # 7]%Q /\
+  map (expect ExF.ev (denote 1 0 (erase_markers ExF.c))) ExF.ps = [6 # 7; 2 # 7; 3 # 7]%Q /\
+  (forall k, k < 3 ->
+     (ExF.Ev k == sumQ (map (fun ids => (coeff_prod (move_cuts ExF.c) ids * part_prod ExF.L ExF.E ids k)%Q)
+                            (all_maps (map (@length Q) (move_cuts ExF.c)))))%Q).
+Proof.
+  repeat split; try reflexivity.
+  intros k Hk. destruct k as [|[|[|k]]]; try lia; vm_compute; reflexivity.
+Qed.
+
+Example c03_ex_reading :
+  reading (denote 5 0 (cut_wires_moves 2 f1_witness)) [0; 0; 3; 0; 1]
+  = reading (denote 2 0 (erase_markers f1_witness)) [3; 1] /\
+  length (reading (denote 2 0 (erase_markers f1_witness)) [3; 1]) = 2.
+Proof. vm_compute. split; reflexivity. Qed.
+
 Print Assumptions c03_qubits.
+Print Assumptions c03_observable_reading.
+Print Assumptions c03_expectation_values.
+Print Assumptions c03_reconstructed_transport.
+Print Assumptions c03_cut_and_reconstruct_partial.
+Print Assumptions c03_ex_clause_f.
 Print Assumptions c03_registers.
 Print Assumptions c03_instructions.
 Print Assumptions c03_instructions_kept.
@@ -202,6 +330,8 @@ Theorem c03_facts :
   sites_of "wire_cutting_transforms:_transform_cuts_to_moves" = 0 /\
   sites_of "wire_cutting_transforms:_transform_cut_wires" = 0 /\
   sites_of "wire_cutting_transforms:_circuit_structure_mapping" = 0 /\
-  sites_of "wire_cutting_transforms:expand_observables" = 2.
+  sites_of "wire_cutting_transforms:expand_observables" = 2 /\
+  (* the coefficient list used for clause f is the Move table of qpd/decompositions.py (C02: c02_source_tables) *)
+  move_table_coeffs = move_cq.
 Proof. repeat split; reflexivity. Qed.
 Print Assumptions c03_facts.
